@@ -483,6 +483,41 @@ func init() {
 				}
 				return parseCaseSexp(g, sampleInput(rng, g, al, 9))
 			}
+			if i%6 == 4 {
+				// "silent failure after a recorded error": a part that fails without saying why (SuppressError, or a
+				// left recursion curtailed on every branch) after a nested combinator that succeeded while recording
+				// an error in the context (Many/SepBy stopping, Any/Choice succeeding through a later alternative)
+				al := []byte("abc")
+				t := func() *Sexp { return runeT(al[rng.Intn(3)]) }
+				var rec *Sexp
+				switch rng.Intn(4) {
+				case 0:
+					rec = LA("many", N(rng.Intn(2)), noOpts, t())
+				case 1:
+					rec = LA("sepby", N(rng.Intn(2)), noOpts, t(), t())
+				case 2:
+					rec = LA("choice", LA("seq", A("of"), noOpts, t(), t()), t())
+				default:
+					rec = LA("any", LA("seq", A("of"), noOpts, t(), t()), t())
+				}
+				var g genGrammar
+				if rng.Intn(3) == 0 {
+					// P -> P t | rec P   (no base case: every branch ends in a curtailed call)
+					g = genGrammar{[]*Sexp{LA("memo", N(0), LA("any", LA("seq", A("of"), noOpts, LA("ref", N(0)), t()),
+						LA("seq", A("of"), noOpts, rec, LA("ref", N(0)))))}, LA("ref", N(0))}
+				} else {
+					body := LA("seq", A("of"), noOpts, rec, LA("suppress", t()))
+					g = genGrammar{[]*Sexp{body}, LA("ref", N(0))}
+				}
+				if rng.Intn(2) == 0 {
+					g.root = LA("sentence", g.root)
+				}
+				in := make([]byte, rng.Intn(5))
+				for k := range in {
+					in[k] = al[rng.Intn(3)]
+				}
+				return parseCaseSexp(g, in)
+			}
 			o := genOpts{subMemo: 0.1, sentence: 0.75, maxRules: 3, nameAlts: rng.Intn(3) == 0}
 			if i%3 == 0 {
 				o.lrf = true // no recursion at all: the exact reference semantics of every operator applies
